@@ -59,21 +59,62 @@ def _install():
     _installed[0] = True
 
 
-def _cached_tuple(fn):
-    """the literal tuple in `if encoding in (...)` of encoding.decode / encoding.encode (live source, via ast)"""
-    tree = ast.parse(textwrap.dedent(inspect.getsource(fn)))
+DOCUMENTED_CACHED = ["gzip", "deflate", "deflateraw", "br", "zstd"]
+
+
+def _probe_cached(kind):
+    """which codings update `encoding._cache` — observed on the live code, never parsed from its source:
+    run one fresh decode/encode per custom coding from an empty cache and look whether an entry for it appears"""
+    out = []
+    saved = E._cache
+    try:
+        for n in sorted(ORIG_ENC if kind == "E" else ORIG_DEC):
+            if (ORIG_ENC if kind == "E" else ORIG_DEC)[n] is E.identity: continue
+            E._cache = E.CachedDecode(None, None, None, None)
+            try:
+                if kind == "E": E.encode(b"probe-body", n)
+                else: E.decode(ORIG_ENC[n](b"probe-body"), n)
+            except Exception:
+                continue
+            if E._cache.encoding == n: out.append(n)
+    finally:
+        E._cache = saved
+    return out
+
+
+def _safe_probe(kind):
+    try:
+        r = _probe_cached(kind)
+        return r if r else list(DOCUMENTED_CACHED)
+    except Exception:
+        return list(DOCUMENTED_CACHED)
+
+
+# the harness and the oracle only use the behaviourally observed sets (no dependence on how the source spells them)
+CACHED_DEC = _safe_probe("D")
+CACHED_ENC = _safe_probe("E")
+
+
+def _cached_tuple_from_source(fn):
+    """(T) the literal collection in `if encoding in (...)` of encoding.decode / encoding.encode, or the module-level
+    constant it names, read from the live source via ast.  Only used by translate(); returns None if the source is
+    shaped differently (then the observed sets above are written to the Gen table instead)."""
+    try:
+        tree = ast.parse(textwrap.dedent(inspect.getsource(fn)))
+    except Exception:
+        return None
     found = []
     for n in ast.walk(tree):
-        if isinstance(n, ast.Compare) and len(n.ops) == 1 and isinstance(n.ops[0], ast.In) \
-                and isinstance(n.comparators[0], (ast.Tuple, ast.List, ast.Set)):
-            found.append([e.value for e in n.comparators[0].elts if isinstance(e, ast.Constant)])
-    if len(found) != 1:
-        raise RuntimeError(f"expected exactly one `in (<literal tuple>)` test in {fn.__name__}, found {found}")
-    return found[0]
+        if isinstance(n, ast.Compare) and len(n.ops) == 1 and isinstance(n.ops[0], ast.In):
+            c = n.comparators[0]
+            if isinstance(c, (ast.Tuple, ast.List, ast.Set)):
+                vals = [e.value for e in c.elts if isinstance(e, ast.Constant)]
+                if len(vals) == len(c.elts) and all(isinstance(v, str) for v in vals): found.append(vals)
+            elif isinstance(c, ast.Name):
+                v = getattr(E, c.id, None)
+                if isinstance(v, (tuple, list, set, frozenset)) and all(isinstance(x, str) for x in v): found.append(sorted(v))
+    return found[0] if len(found) == 1 else None
 
-
-CACHED_DEC = _cached_tuple(E.decode)
-CACHED_ENC = _cached_tuple(E.encode)
 
 # coding names (as they may appear in a header / an argument) used by the generator
 CODINGS = ["identity", "none", "", "gzip", "GZip", "deflate", "deflateraw", "br", "BR", "zstd", "Zstd", "foo", "x-gzip",
@@ -258,11 +299,12 @@ def _readback(m):
         E._cache = saved
 
 
-def _value(op, last):
+def _value(op, last, ms=None):
     if op["o"] not in ("set", "raw"): return None
     m = op.get("m", "val")
     if m == "none": return None
     if m == "last": return last
+    if m == "rawof": return ms[op["j"]].raw_content        # the (encoded) raw body of the other message object
     return unhx(op["v_hex"])
 
 
@@ -361,6 +403,10 @@ class Check(PropertyCheck):
 
         def doc(names):
             return " ".join(repr(n) for n in names)
+        # source-level tables when the source has the expected shape, else the behaviourally observed ones;
+        # a table that disagrees with the code's behaviour shows up as a model/implementation mismatch
+        CACHED_DEC = _cached_tuple_from_source(E.decode) or globals()["CACHED_DEC"]
+        CACHED_ENC = _cached_tuple_from_source(E.encode) or globals()["CACHED_ENC"]
         kinds = {n: _pykind(n) for n in PROBE if n not in ORIG_DEC and n not in ORIG_ENC}
         pyb = sorted(n for n, k in kinds.items() if k == "pybytes")
         pyt = sorted(n for n, k in kinds.items() if k == "pytext")
@@ -402,12 +448,39 @@ class Check(PropertyCheck):
                             for o2 in ("dec", "enc"):
                                 yield {"ops": [{"o": o1, "data_hex": hx(x1), "c": c1, "e": "strict"},
                                                {"o": o2, "data_hex": hx(x2), "c": c2, "e": "strict"}]}
+        for c in [k for k in ("gzip", "deflate", "br", "zstd", "deflateraw") if k in ORIG_ENC]:
+            for x in (b"", b"x", P1):
+                for variant in range(6):
+                    yield {"ops": self._chain(c, x, variant)}
         for c in cods:
             for x in bodies:
                 for c2 in cods:
                     yield {"ops": [{"o": "raw", "i": 0, "m": "val", "v_hex": hx(x)}, {"o": "ce", "i": 0, "c": c},
                                    {"o": "get", "i": 0, "s": 1}, {"o": "set", "i": 0, "m": "last"}, {"o": "get", "i": 0, "s": 1},
                                    {"o": "mdec", "i": 0, "s": 1}, {"o": "menc", "i": 0, "c": c2}, {"o": "get", "i": 0, "s": 1}]}
+
+    @staticmethod
+    def _chain(c, x, variant, cv=None):
+        """histories over bodies that are each other's encodings (X, enc(X), enc(enc(X))) with ONE coding, on the module
+        functions and across two different message objects: a fresh encode followed by an encode of its output / a
+        decode of its input must not be answered from the entry the first call left behind"""
+        cv = cv or c
+        e1 = ORIG_ENC[c](x); e2 = ORIG_ENC[c](e1)
+        E_ = lambda d, cc=cv: {"o": "enc", "data_hex": hx(d), "c": cc, "e": "strict"}
+        D_ = lambda d, cc=cv: {"o": "dec", "data_hex": hx(d), "c": cc, "e": "strict"}
+        if variant == 0: return [E_(x), E_(e1), D_(e2), D_(e1)]
+        if variant == 1: return [E_(x), D_(x)]
+        if variant == 2: return [E_(x), E_(e1, c), E_(e2), D_(e1), D_(x)]
+        if variant == 3:      # message A gets X, message B gets A's raw body as content (same coding), both read back
+            return [{"o": "ce", "i": 0, "c": cv}, {"o": "ce", "i": 1, "c": c}, {"o": "set", "i": 0, "m": "val", "v_hex": hx(x)},
+                    {"o": "set", "i": 1, "m": "rawof", "j": 0}, {"o": "get", "i": 1, "s": 1}, {"o": "get", "i": 0, "s": 1},
+                    E_(b"unrelated body that evicts the entry", "zstd"), {"o": "get", "i": 1, "s": 1}]
+        if variant == 4:      # double compression on one message, then the other message decodes the inner stream
+            return [{"o": "ce", "i": 0, "c": c}, {"o": "set", "i": 0, "m": "val", "v_hex": hx(x)}, {"o": "menc", "i": 0, "c": cv},
+                    {"o": "get", "i": 0, "s": 1}, {"o": "ce", "i": 1, "c": c}, {"o": "raw", "i": 1, "m": "rawof", "j": 0},
+                    {"o": "get", "i": 1, "s": 1}, {"o": "mdec", "i": 1, "s": 1}, {"o": "get", "i": 1, "s": 1}]
+        return [{"o": "ce", "i": 1, "c": c}, {"o": "set", "i": 1, "m": "val", "v_hex": hx(x)}, D_(x), {"o": "ce", "i": 0, "c": cv},
+                {"o": "set", "i": 0, "m": "rawof", "j": 1}, {"o": "set", "i": 1, "m": "rawof", "j": 0}, {"o": "get", "i": 1, "s": 1}]
 
     def _coding(self, rng, pool):
         return rng.pick(pool)
@@ -437,6 +510,11 @@ class Check(PropertyCheck):
         cods = [rng.pick(CASEVAR[fam]), rng.pick(CASEVAR[fam]), rng.pick(CASEVAR[fam2]), rng.pick(CODINGS), rng.pick(CODINGS)]
         bodies = [b"", p, rng.pick(st[fam]), rng.pick(st[fam]), rng.pick(st[fam2]), rng.pick([P1, P2, b"x", b"\xff\xfenot compressed"])]
         r = rng.random()
+        if r < 0.12:
+            ops = self._chain(fam, rng.pick([p, P1, P2, b""]), rng.randint(0, 5), rng.pick(CASEVAR[fam]))
+            if rng.chance(0.4):    # an unrelated op somewhere in between (may or may not evict the entry)
+                k = rng.randint(1, len(ops)); ops = ops[:k] + [self._rand_op(rng, bodies, cods)] + ops[k:]
+            return {"ops": ops}
         if r < 0.6:
             i = rng.randint(0, 1)
             c = rng.pick(CASEVAR[fam])
@@ -509,7 +587,7 @@ class Check(PropertyCheck):
         recs = []
         rb = [_readback(m) for m in ms]
         for op in case["ops"]:
-            v = _value(op, last)
+            v = _value(op, last, ms)
             before = [_mstate(m) for m in ms]
             cache_before = _cache_r()
             need = _need(ms, op, v)
